@@ -324,7 +324,9 @@ def c05_chains(tier, rnd):
     chains = [(a,) for a in etypes] + [(a, b) for a in etypes for b in etypes]
     c3 = [(a, b, c) for a in etypes for b in etypes for c in etypes]
     if tier == "quick":
-        c3 = rnd.sample(c3, 250)
+        # (the 27 chains over one plain name are always there: global / local / repeat re-binding one name)
+        same = [ch for ch in c3 if all(n == "x" for _, n in ch)]
+        c3 = same + rnd.sample([ch for ch in c3 if ch not in same], 230)
     chains += c3
     progs = []
     for ch in chains:
@@ -423,7 +425,8 @@ def c05_multiname(tier, rnd):
 def c05_siblings(tier, rnd):
     """a defining element followed by a sibling that reads the name in an
     expression (text probe): shadowing a builtin or helper name is local"""
-    pool = ["x", "len", "str", "id"]
+    # (AttributeError, LookupError: classes that the generated code of `|` and exists: names)
+    pool = ["x", "len", "str", "id", "AttributeError", "LookupError"]
     progs = []
     for n in pool:
         for k in ("L", "G", "R"):
@@ -432,7 +435,8 @@ def c05_siblings(tier, rnd):
                 el = Open(rep=(False, n, al.call("repeat", [SEQ([S("a")]), SEQ([])])), sattr=[])
             else:
                 el = Open(define=[(k == "G", n, al.call("define", [S("a")]))], sattr=[])
-            items = [Text("0", pipe(var(n), const(S("u0")))), el, Text("1", pipe(var(n), const(S("u0")))), CLOSE,
+            items = [Text("0", pipe(var(n), const(S("u0")))), el, Text("1", pipe(var(n), const(S("u0"))), pipe(var("nope"), const(S("u0"))),
+                                                                          exists(var("nope")), exists(attr(var(n), "nosuch"))), CLOSE,
                      Text("2", pipe(var(n), const(S("u0")))),
                      Open(cond=var(n) if n != "x" else pipe(var(n), const(B(True))), sattr=[]), Text("3"), CLOSE]
             progs.append(program(items, al.dom, fam="C05.sib:%s:%s" % (k, n)))
@@ -450,7 +454,7 @@ def c05_siblings(tier, rnd):
             if pre_bound:
                 items += [CLOSE, pr()]
             progs.append(program(items, al.dom, fam="C05.mixed:%s:%s" % ("".join("G" if g else "L" for g in scopes), pre_bound)))
-    return progs, pool
+    return progs, pool + ["nope"]
 
 
 # ------------------------------------------------------------------ C13 / C12
@@ -579,7 +583,7 @@ def c13_metal(tier, rnd):
 
 # ------------------------------------------------------------------ C12
 EXC12 = ["KeyError", "ValueError", "ZeroDivisionError", "Custom2", "CustomStr", "RecursionError",
-         "KeyboardInterrupt", "SystemExit", "Exception"]
+         "KeyboardInterrupt", "SystemExit", "Exception", "ExceptionGroup", "OSError"]
 
 
 def c12_raising(tier, rnd):
@@ -757,6 +761,14 @@ def c04_family(tier, rnd):
             # read before and after the element)
             progs.append(program(items, al.dom, init={"x": S("c"), "y": S("p")} if sname.startswith("wrap") else {},
                                  fam="C04:%s@%s" % (sname, site)))
+    # a switch with several cases: the cases after the matching one are not evaluated (each case expression a call)
+    for ncases in (2, 3):
+        al = Alloc(tier)
+        items = [Text("pre"), Open(sw=al.call("switch", [S("a"), S("b")]))]
+        for c in range(ncases):
+            items += [Open(cs=al.call("case", [S("a"), S("b"), S("c"), EXC("ZeroDivisionError")]), sattr=[]), Text("c%d" % c), CLOSE]
+        items += [Open(cs=DFLT, sattr=[]), Text("d"), CLOSE, CLOSE, Text("post")]
+        progs.append(program(items, al.dom, fam="C04:cases:%d" % ncases))
     # the same expression text several times in one string: every occurrence is an evaluation of its own
     vals = [S("a"), S("b")] if tier == "quick" else [S("a"), S("b"), NONE, EXC("KeyError")]
     for where in ("text", "string-content", "string-attr", "pipe-text", "two-elements"):
